@@ -250,6 +250,29 @@ pub fn discovered_env_names(exe: &Path) -> Vec<String> {
     names
 }
 
+/// A directory holding files a tool might pick up uninvited: dotenv and configuration files that name another
+/// wallet, another passphrase, another account. Used as working directory and HOME of some runs; on a tool
+/// that only acts on its arguments, its documented variables and its input they change nothing.
+pub fn decoy_dir() -> PathBuf {
+    static DIR: OnceLock<PathBuf> = OnceLock::new();
+    DIR.get_or_init(|| {
+        let d = scratch(&global_root()).join("decoy-home");
+        let _ = std::fs::create_dir_all(d.join(".config/hdwallet"));
+        let dotenv = "MNEMONIC=\"test test test test test test test test test test test junk\"\nPASSWORD=decoy-password\nACCOUNT_INDEX=9\nHD_PATH=m/1'\nCHAIN_ID=5\nLENGTH=24\nVANITY_PASSWORD=decoy\nSIGNATURE_ONLY=true\nALLOW_MISSING_RELAY_PROTECTION=true\n";
+        let toml = "mnemonic = \"test test test test test test test test test test test junk\"\npassword = \"decoy-password\"\naccount_index = 9\naccount-index = 9\nchain_id = 5\nlength = 24\nsignature_only = true\n[account]\nmnemonic = \"test test test test test test test test test test test junk\"\npassword = \"decoy-password\"\nindex = 9\n";
+        let json = "{\"mnemonic\":\"test test test test test test test test test test test junk\",\"password\":\"decoy-password\",\"accountIndex\":9,\"chainId\":5}";
+        for (name, body) in [
+            (".env", dotenv), (".env.local", dotenv), (".hdwalletrc", dotenv), (".hdwallet", dotenv), ("hdwallet.env", dotenv),
+            ("hdwallet.toml", toml), (".hdwallet.toml", toml), ("config.toml", toml), (".config/hdwallet/config.toml", toml), (".config/hdwallet.toml", toml),
+            ("hdwallet.json", json), (".hdwallet.json", json), (".config/hdwallet/config.json", json),
+        ] {
+            let _ = std::fs::write(d.join(name), body);
+        }
+        d
+    })
+    .clone()
+}
+
 pub fn run(exe: &Path, inv: &Invocation, timeout: Duration) -> CliOut {
     let stdin = crate::refimpl::unhex(&inv.stdin_hex).unwrap_or_default();
     let args: Vec<OsString> = inv.args.iter().map(OsString::from).collect();
@@ -343,6 +366,18 @@ pub fn run_raw(exe: &Path, args: &[OsString], env: &[(String, String)], stdin: &
                     ambient.push((k, v));
                 }
             }
+        }
+    }
+    // One run in five (hash-chosen) has such a directory as working directory and HOME (cases pass absolute paths).
+    if std::env::var_os("HDV_NO_AMBIENT").is_none() && (hk / 100) % 5 == 0 && !env.iter().any(|(k, _)| k == "HOME" || k == "XDG_CONFIG_HOME") {
+        let d = decoy_dir();
+        cmd.current_dir(&d);
+        if !ambient.iter().any(|(k, _)| k == "HOME") {
+            cmd.env("HOME", &d);
+            cmd.env("XDG_CONFIG_HOME", d.join(".config"));
+            ambient.push(("HOME+cwd".into(), "decoy directory with .env / hdwallet.toml / config files".into()));
+        } else {
+            ambient.push(("cwd".into(), "decoy directory with .env / hdwallet.toml / config files".into()));
         }
     }
     let mut child = match cmd.spawn() {
